@@ -603,3 +603,60 @@ func RunM1Exhaustive(c *core.Ctx, idx int, prop string) {
 		c.Sample("m1-exhaustive", map[string]any{"program": p.String(), "schedules_explored": explored, "complete": complete})
 	}
 }
+
+// TinyStreams: 3 shapes x lengths 0..2, fan-out 2, capacity 1.
+func TinyStreams() []SProgram {
+	var ps []SProgram
+	for _, sh := range []string{"fork", "split", "splitjoin"} {
+		for l := 0; l <= 2; l++ {
+			ps = append(ps, SProgram{Shape: sh, Length: l, Fan: 2, Cap: 1})
+		}
+	}
+	return ps
+}
+
+// RunC06Exhaustive: depth-first exploration of every schedule of a tiny stream program.
+func RunC06Exhaustive(c *core.Ctx, idx int) {
+	ps := TinyStreams()
+	p := ps[idx%len(ps)]
+	budget := core.Tiered(c.Tier, 3000, 300000)
+	var forced []int
+	explored := 0
+	complete := false
+	for explored < budget {
+		res := RunSProgramForced(core.NewRng(99, uint64(idx)), p, forced, true)
+		explored++
+		cs := map[string]any{"program": p.String(), "received": res.Outputs}
+		if !reportM1(c, res.Sched, res.Panic, cs, true) {
+			return
+		}
+		for _, f := range CheckStream(res) {
+			c.Violation(f.Sig, f.Msg, cs)
+			return
+		}
+		c.Distinct(core.Mix(core.HashStr(p.String()), traceHash(res.Sched)))
+		ch := res.Sched.Choices
+		k := len(ch) - 1
+		for k >= 0 && ch[k][1]+1 >= ch[k][0] {
+			k--
+		}
+		if k < 0 {
+			complete = true
+			break
+		}
+		forced = forced[:0]
+		for i := 0; i < k; i++ {
+			forced = append(forced, ch[i][1])
+		}
+		forced = append(forced, ch[k][1]+1)
+	}
+	c.CoverN("m1.exhaustive.schedules", explored)
+	if complete {
+		c.Cover("m1.exhaustive.programs-explored-completely")
+	} else {
+		c.Cover("m1.exhaustive.programs-cut-at-the-budget")
+	}
+	if c.WantSample("m1-exhaustive-stream") {
+		c.Sample("m1-exhaustive-stream", map[string]any{"program": p.String(), "schedules_explored": explored, "complete": complete})
+	}
+}
